@@ -1450,4 +1450,52 @@ example : CT.RWF (.bin "+" (.num ['1']) (.pct (.cell ['A'] ['1']))) :=
   rwf_of_wf_shape _ (CT.WF.bin _ _ _ (by decide) (CT.WF.num _ (by decide) (by decide))
     (CT.WF.pct _ (CT.WF.cell _ _ ⟨by decide, by decide, by decide, by decide, by decide⟩))) (by decide)
 
+
+/-! ### any admissible placement of blanks -/
+
+/-- **blanks between the tokens do not matter**: write any numbers of blanks behind the tokens of the compact
+spelling of a well-formed tree — wherever the tokeniser allows them (`GapsOK`: behind a separator or a binary
+operator, or in front of an operator, a sign, `%`, a separator or a closing parenthesis), none behind the last
+token — and the text still parses to the tree -/
+theorem compact_text_with_blanks_parses (ct : CT) (h : CT.WF ct) (gs : List GT) (hf : fsts gs = ct.spec)
+    (hg : GapsOK gs none) (hl : (gs.getLast?.map (·.2)) = some 0) :
+    parseString ('=' :: textG gs) = .ok ct.toAst := by
+  have hne : gs ≠ [] := by
+    intro e; rw [e] at hf; exact spec_ne_nil ct hf.symm
+  have hsafe : SafeG gs := by
+    apply safeG_of gs _ hg
+    rw [hf]
+    exact safe_spec ct h [] ⟨Or.inl rfl, by intro r hr; cases hr⟩
+  apply parse_textG gs hsafe hne hl
+  have hm : (gs.map fun x => x.1.tok) = ct.spec.map TS.tok := by
+    rw [← hf]; simp [fsts, List.map_map, Function.comp_def]
+  rw [hm]
+  exact parse_spelling _ _ _ (spec_sp ct h)
+
+-- `=1 + 2*A1` : blanks around `+`
+example : GapsOK [(TS.num ['1'], 1), (TS.bin "+", 1), (TS.num ['2'], 0), (TS.bin "*", 0), (TS.cell ['A'] ['1'], 0)] none := by
+  refine GapsOK.cons _ _ _ _ (Or.inr (Or.inl ⟨_, rfl, rfl⟩)) ?_
+  refine GapsOK.cons _ _ _ _ (Or.inr (Or.inr (Or.inr ⟨"+", rfl, by intro t ht; cases ht; rfl⟩))) ?_
+  refine GapsOK.cons _ _ _ _ (Or.inl rfl) ?_
+  refine GapsOK.cons _ _ _ _ (Or.inl rfl) ?_
+  exact GapsOK.cons _ _ _ _ (Or.inl rfl) (GapsOK.nil _)
+
+
+/-- the same for the fully parenthesised (exported) spelling: the blanks `render` writes are one admissible choice -/
+theorem exported_text_with_blanks_parses (ct : CT) (h : CT.RWF ct) (gs : List GT) (hf : fsts gs = ct.fspec)
+    (hg : GapsOK gs none) (hl : (gs.getLast?.map (·.2)) = some 0) :
+    parseString ('=' :: textG gs) = .ok ct.toAst := by
+  have hne : gs ≠ [] := by
+    intro e; rw [e] at hf; exact fspec_ne_nil ct hf.symm
+  have hsafe : SafeG gs := by
+    apply safeG_of gs _ hg
+    rw [hf]
+    exact safe_fspec ct h [] ⟨Or.inl rfl, by intro r hr; cases hr⟩
+  apply parse_textG gs hsafe hne hl
+  have hm : (gs.map fun x => x.1.tok) = ct.fspec.map TS.tok := by
+    rw [← hf]; simp [fsts, List.map_map, Function.comp_def]
+  rw [hm]
+  exact parse_spelling _ _ _ (fspec_sp ct h)
+
+
 end XL.LexText
